@@ -496,8 +496,11 @@ fn run_inner(scn: &Scn, res: &mut ScnResult) -> Result<(), String> {
     };
     let mut mrng = Prng::new(scn.msg_seed);
     let sks: Vec<SecretKey> = parties.iter().map(|p| p.secret_key().clone()).collect();
-    let s = add_keys(&ctx0, &sks);
-    let dec_s = Decryptor::new(ctx0.clone(), s.clone());
+    let mut s = add_keys(&ctx0, &sks);
+    let mut dec_s = Decryptor::new(ctx0.clone(), s.clone());
+    // after the parties have adopted new key shares the old collective public key is void: the harness
+    // then encrypts symmetrically under the new summed key
+    let mut adopted_new_keys = false;
     let ckks_tol = 0.5;
 
     let mut pk: Option<PublicKey> = None;
@@ -525,14 +528,23 @@ fn run_inner(scn: &Scn, res: &mut ScnResult) -> Result<(), String> {
         if need_cipher {
             let Some(pk) = &pk else { return Err("session list needs a public key first".into()) };
             let m = env.fresh_msg(&mut mrng);
-            let enc = Encryptor::new(ctx0.clone()).set_public_key(pk.clone());
+            let enc = Encryptor::new(ctx0.clone()).set_public_key(pk.clone()).set_secret_key(s.clone());
+            let encrypt = |p: &Plaintext| -> Ciphertext {
+                if adopted_new_keys {
+                    let mut c = Ciphertext::new();
+                    enc.encrypt_symmetric(p, &mut c);
+                    c
+                } else {
+                    enc.encrypt_new(p)
+                }
+            };
             let mut m = m;
-            let mut c = enc.encrypt_new(&env.encode(&m));
+            let mut c = encrypt(&env.encode(&m));
             if scn.preps.get(idx).copied().unwrap_or(0) % 1000 >= 100 {
                 if let Some(rk) = &rlk {
                     // an evaluated ciphertext: product of two encryptions, relinearized with the *collective* key
                     let m2 = env.fresh_msg(&mut mrng);
-                    let c2 = enc.encrypt_new(&env.encode(&m2));
+                    let c2 = encrypt(&env.encode(&m2));
                     let prod = catch_res(|| env.eval.relinearize_new(&env.eval.multiply_new(&c, &c2), rk));
                     if let Ok(p) = prod {
                         c = p;
@@ -551,7 +563,7 @@ fn run_inner(scn: &Scn, res: &mut ScnResult) -> Result<(), String> {
                 res.count("probe.session_on_mod_switched_ciphertext", 1);
             }
             // key switching accepts both representations: sometimes hand it the non-default one
-            if scn.preps.get(idx).copied().unwrap_or(0) >= 1000 && matches!(kind, Kind::KeySwitch | Kind::PublicKeySwitch) {
+            if scn.preps.get(idx).copied().unwrap_or(0) % 10000 >= 1000 && matches!(kind, Kind::KeySwitch | Kind::PublicKeySwitch) {
                 let flipped = if c.is_ntt_form() { catch_res(|| env.eval.transform_from_ntt_new(&c)) } else { catch_res(|| env.eval.transform_to_ntt_new(&c)) };
                 if let Ok(f) = flipped {
                     c = f;
@@ -718,7 +730,7 @@ fn run_inner(scn: &Scn, res: &mut ScnResult) -> Result<(), String> {
                 let out = net::drive(n, &mut io, &plan, &order, frag_seed);
                 judge_net(res, kind, scheme, &out, faulty);
                 let s_new = add_keys(&ctx0, &new_keys);
-                let dec_new = Decryptor::new(ctx0.clone(), s_new);
+                let dec_new = Decryptor::new(ctx0.clone(), s_new.clone());
                 for i in 0..n {
                     let p = io.protos[i].take().unwrap();
                     let r = catch_res(|| p.finish());
@@ -734,6 +746,18 @@ fn run_inner(scn: &Scn, res: &mut ScnResult) -> Result<(), String> {
                     }
                 }
                 session_orders = out.history.clone();
+                drop(io);
+                if !faulty && scn.preps.get(idx).copied().unwrap_or(0) >= 10000 {
+                    // the parties adopt the new shares (a key rotation): everything afterwards runs under them
+                    for (p, k) in parties.iter_mut().zip(new_keys.iter()) {
+                        p.update_secret_key(k);
+                    }
+                    s = s_new;
+                    dec_s = Decryptor::new(ctx0.clone(), s.clone());
+                    adopted_new_keys = true;
+                    rlk = None;
+                    res.count("probe.parties_adopted_new_key_shares", 1);
+                }
             }
             Kind::PublicKeySwitch => {
                 let c = cipher.clone().unwrap();
@@ -965,7 +989,7 @@ fn gen_scn(rng: &mut Prng, run_seed: u64, max_n: usize) -> Option<Scn> {
     }
     let preps: Vec<usize> = sessions
         .iter()
-        .map(|_| (if rng.chance(1, 3) { rng.range(1, 2) } else { 0 }) + if with_relin && rng.chance(1, 3) { 100 } else { 0 } + if rng.chance(1, 3) { 1000 } else { 0 })
+        .map(|_| (if rng.chance(1, 3) { rng.range(1, 2) } else { 0 }) + if with_relin && rng.chance(1, 3) { 100 } else { 0 } + if rng.chance(1, 3) { 1000 } else { 0 } + if rng.coin() { 10000 } else { 0 })
         .collect();
     let finishers: Vec<Vec<usize>> = sessions
         .iter()
